@@ -2,7 +2,7 @@
 """Regenerates /verif/MANIFEST.json from the table below (one entry per claimed property)."""
 import json, subprocess
 
-HOOK_COMMITS = ["1ce4350"]
+HOOK_COMMITS = ["1ce4350", "cf6c482"]
 
 SYM_NOTE = ("Trusted: the reading of the statement written in spec/Val.tla, Shape.tla, TensorOps.tla, Components.tla, Prog.tla (derivatives only by symbolic differentiation of definitions; closed forms cross-checked by TLC on rational instances); the float64 term evaluator and its first-order error bound (Go math on both sides). Shapes / arguments exhaustive within the stated grid; element values sampled (seeded, boundary values included), not exhaustive.")
 SYM_TECH = "TLA+ spec evaluated by TLC as exhaustive-in-bounds case generator; spec -> code replay with float64 assignments"
